@@ -36,7 +36,7 @@ def main():
                         continue
                     cases.append((pre + mt + flag + ',' + d).encode())
                 cases.append(('data:' + mt + flag + d).encode())
-    for b in c01.sample_strings(dfas['uri'], random.Random(rnd.random()), 4000 if thorough else 800):
+    for b in c01.sample_strings(dfas['uri'], random.Random(rnd.random()), 20000 if thorough else 800):
         cases.append(b)
         if rnd.random() < 0.5:
             cases.append(b'data:' + b[b.find(b':') + 1:])
